@@ -1348,6 +1348,13 @@ impl ServerSession {
     }
 
     fn get_epoch(&self) -> RtmpTimestamp {
+        #[cfg(feature = "verif")]
+        {
+            if let Some(uptime_ms) = ::verif::clock() {
+                return RtmpTimestamp::new(uptime_ms as u32);
+            }
+        }
+
         match self.start_time.elapsed() {
             Ok(duration) => {
                 let milliseconds =
@@ -1392,4 +1399,73 @@ fn create_status_object(level: &str, code: &str, description: &str) -> HashMap<S
         Amf0Value::Utf8String(description.to_string()),
     );
     properties
+}
+
+#[cfg(feature = "verif")]
+impl ServerSession {
+    /// Read-only snapshot of the session's abstract state as a JSON string
+    /// (names and keys hex encoded).  Verification hook, see `::verif`.
+    pub fn verif_probe(&self) -> String {
+        fn hex(s: &str) -> String {
+            s.as_bytes().iter().map(|b| format!("{:02x}", b)).collect()
+        }
+
+        let mut requests: Vec<(u32, String)> = self
+            .outstanding_requests
+            .iter()
+            .map(|(id, r)| {
+                let d = match r {
+                    OutstandingRequest::ConnectionRequest { app_name, .. } => {
+                        format!("{{\"id\":{},\"k\":\"connect\",\"app\":\"{}\"}}", id, hex(app_name))
+                    }
+                    OutstandingRequest::PublishRequested { stream_key, stream_id, .. } => format!(
+                        "{{\"id\":{},\"k\":\"publish\",\"key\":\"{}\",\"sid\":{}}}",
+                        id,
+                        hex(stream_key),
+                        stream_id
+                    ),
+                    OutstandingRequest::PlayRequested { stream_key, stream_id } => format!(
+                        "{{\"id\":{},\"k\":\"play\",\"key\":\"{}\",\"sid\":{}}}",
+                        id,
+                        hex(stream_key),
+                        stream_id
+                    ),
+                };
+                (*id, d)
+            })
+            .collect();
+        requests.sort();
+
+        let mut streams: Vec<(u32, String)> = self
+            .active_streams
+            .iter()
+            .map(|(id, s)| {
+                let d = match s.current_state {
+                    StreamState::Created => format!("{{\"id\":{},\"st\":\"created\",\"key\":\"\"}}", id),
+                    StreamState::Publishing { ref stream_key, .. } => {
+                        format!("{{\"id\":{},\"st\":\"publishing\",\"key\":\"{}\"}}", id, hex(stream_key))
+                    }
+                    StreamState::Playing { ref stream_key } => {
+                        format!("{{\"id\":{},\"st\":\"playing\",\"key\":\"{}\"}}", id, hex(stream_key))
+                    }
+                    StreamState::Completed => format!("{{\"id\":{},\"st\":\"completed\",\"key\":\"\"}}", id),
+                };
+                (*id, d)
+            })
+            .collect();
+        streams.sort();
+
+        format!(
+            "{{\"state\":\"{}\",\"app\":{},\"reqs\":[{}],\"next_req\":{},\"streams\":[{}],\"next_stream\":{},\"window\":{},\"pending\":{},\"rx\":{}}}",
+            if self.current_state == SessionState::Connected { "connected" } else { "started" },
+            match self.connected_app_name { Some(ref a) => format!("[\"{}\"]", hex(a)), None => "[]".to_string() },
+            requests.into_iter().map(|x| x.1).collect::<Vec<_>>().join(","),
+            self.next_request_number,
+            streams.into_iter().map(|x| x.1).collect::<Vec<_>>().join(","),
+            self.next_stream_id,
+            match self.peer_window_ack_size { Some(w) => format!("[{}]", w), None => "[]".to_string() },
+            self.bytes_received_since_last_ack,
+            self.bytes_received
+        )
+    }
 }
